@@ -127,3 +127,18 @@ PROPS["C14"] = {
     "extra": [extras.c14_determinism],
     "assumptions": ["hash seeds, thread scheduling and process identity are runtime facts: covered by the lint and by multi-process runs, not by a theorem"],
 }
+
+PROPS["C15"] = {
+    "deps": ["Proofs/TraceCursors.vo"],
+    "props": "Props/C15.v",
+    "suites": [("reader", 1200, 40000)],
+    "assumptions": ["the trace model's association list for bonds mirrors HashMap insert-overwrites semantics"],
+}
+PROPS["C19"] = {
+    "deps": ["Proofs/ReaderDepth.vo"],
+    "props": "Props/C19.v",
+    "suites": [("reader", 600, 12000)],
+    "extra": [extras.c19_stack],
+    "assumptions": ["frame sizes, inlining and allocator behaviour are the compiler's: the theorem bounds call depth, the child-process runs tie depth to bytes on an 8 MiB stack",
+                    "walk, Writer, Builder and build use no recursion (explicit stacks and loops; by inspection of the source, not modelled)"],
+}
